@@ -79,6 +79,26 @@ def run(ck, fb):
                                 r = cfg.reach_from(t, [dst], blocked_blocks=nxt)
                                 if s.bb not in r and s.bb in cfg.reach_from(t, [src]):
                                     ok_lm = True
+                # a skipped key must not end the scan: from every skip edge the loop's `next` is reached again (continue, not break/return)
+                nxt_all = [x.bb for x in t.calls(r'Iterator>::next$')]
+                loop_next = [n for n in nxt_all if s.bb in cfg.reach_from(t, [n]) and n in cfg.reach_from(t, [s.bb])]
+                skips_ok = True
+                for (src, dst, lab, term) in cfg.switch_edges(t):
+                    if src not in cfg.reach_from(t, loop_next) or s.bb not in cfg.reach_from(t, [src]):
+                        continue
+                    dd = cfg.describe_operand(t, term['discr'])
+                    if dd['k'] == 'discr':
+                        pdd = cfg.describe_operand(t, {'cp': dd['pl']})
+                        if pdd['k'] == 'call' and pdd['bb'] in loop_next:
+                            continue    # the iterator's own Some/None test: None legitimately ends the loop
+                    if s.bb in cfg.reach_from(t, [dst], blocked_blocks=loop_next):
+                        continue    # this edge goes on to the action
+                    # an edge inside the loop body that bypasses the action must come back to the loop head
+                    if not any(n in cfg.reach_from(t, [dst]) for n in loop_next):
+                        skips_ok = False
+                ck.require(bool(loop_next) and skips_ok, 'R13b', 'time_check:%s:skip-continues-scan' % callee.split('::')[-1], s.where(),
+                           'a key that is skipped by the re-validation ends the scan of the drained batch (break/return instead of continue): the other '
+                           'drained instances are never marked unhealthy or removed although their entries have been taken out of the timeout set')
                 ck.require(ok_en, 'R13b', 'time_check:%s:revalidates-clock-subject' % callee.split('::')[-1], s.where(),
                            '%s is reached although the instance is no longer subject to the heartbeat clock (persistent / gRPC / owned elsewhere)' % callee.split('::')[-1])
                 ck.require(ok_lm, 'R13b', 'time_check:%s:revalidates-last-heartbeat' % callee.split('::')[-1], s.where(),
